@@ -220,8 +220,7 @@ def ownership(ctx):
             ok = bool(allocs) and bool(cas)
             if ok:
                 ap = f.pos_of(allocs[0])
-                ok = any(f.pos_of(c) and f.dominates(ap, f.pos_of(c)) and
-                         path(f, f.s(c["args"][1])) == "l:newZombie" for c in cas)
+                ok = any(f.pos_of(c) and f.dominates(ap, f.pos_of(c)) for c in cas)
             ctx.ob(rid, ok, f.where, "erase pushes the record it allocated onto the log (CAS with the new record)",
                    "" if ok else "allocated record is not the CAS's desired value", fn=f.label, inst=f.qname)
             # every path that allocates a record also publishes it (or gives it back)
